@@ -3,8 +3,8 @@ import SqlizeModel.Proofs.SpecWF
 namespace Sqlize.Spec
 open Sqlize
 
-/-- the primary key of a table names columns of that table -/
-def TableSpec.PkIn (tb : TableSpec) : Prop := ∀ c ∈ tb.pk, c ∈ tb.colNames
+/-- the primary key of a table names columns of that table, each once -/
+def TableSpec.PkIn (tb : TableSpec) : Prop := (∀ c ∈ tb.pk, c ∈ tb.colNames) ∧ tb.pk.Nodup
 
 def DB.PkIn (db : DB) : Prop := ∀ tb ∈ db, tb.PkIn
 
@@ -16,9 +16,19 @@ theorem pkin_replace {db : DB} {tb' : TableSpec} (h : db.PkIn) (h' : tb'.PkIn) :
 
 theorem pkin_of_superset {tb tb' : TableSpec} (h : tb.PkIn) (hp : tb'.pk = tb.pk)
     (hc : ∀ c ∈ tb.colNames, c ∈ tb'.colNames) : tb'.PkIn := by
+  refine ⟨?_, by rw [hp]; exact h.2⟩
   intro c hcm
   rw [hp] at hcm
-  exact hc c (h c hcm)
+  exact hc c (h.1 c hcm)
+
+theorem allNodup_nodup (l : List String) : allNodup l = true → l.Nodup := by
+  induction l with
+  | nil => intro _; exact List.nodup_nil
+  | cons x r ih =>
+    intro h
+    unfold allNodup at h
+    rw [Bool.and_eq_true] at h
+    exact List.nodup_cons.mpr ⟨by simpa using h.1, ih h.2⟩
 
 theorem exec_pkin (rc : Bool) {db db' : DB} (s : Stmt) (hs : s.colSafe = true) (h : db.PkIn)
     (he : exec rc db s = some db') : db'.PkIn := by
@@ -34,25 +44,26 @@ theorem exec_pkin (rc : Bool) {db db' : DB} (s : Stmt) (hs : s.colSafe = true) (
         · split at he
           · cases he
           · have key : ∃ pk', db' = db ++ [{ name := t, cols := cols.map (fun c => (colOf c).1), pk := pk' }] ∧
-                pk'.all ((cols.map colOf).map (·.1.name)).contains = true := by
+                pk'.all ((cols.map colOf).map (·.1.name)).contains = true ∧ allNodup pk' = true := by
               split at he
               · split at he
                 · cases he
                 · rename_i hchk
                   simp only [Bool.or_eq_true, not_or, Bool.not_eq_true', Bool.not_eq_false, Bool.not_eq_true] at hchk
-                  exact ⟨_, by simpa [List.map_map, Function.comp_def] using (Option.some.inj he).symm, by simpa using hchk.1⟩
+                  exact ⟨_, by simpa [List.map_map, Function.comp_def] using (Option.some.inj he).symm, by simpa using hchk.1, hchk.2⟩
               · split at he
                 · cases he
                 · rename_i hchk
                   simp only [Bool.or_eq_true, not_or, Bool.not_eq_true', Bool.not_eq_false, Bool.not_eq_true] at hchk
-                  exact ⟨_, by simpa [List.map_map, Function.comp_def] using (Option.some.inj he).symm, by simpa using hchk.1⟩
-            obtain ⟨pk', hdb, hall⟩ := key
+                  exact ⟨_, by simpa [List.map_map, Function.comp_def] using (Option.some.inj he).symm, by simpa using hchk.1, hchk.2⟩
+            obtain ⟨pk', hdb, hall, hnd⟩ := key
             subst hdb
             intro x hx
             rcases List.mem_append.mp hx with hx' | hx'
             · exact h x hx'
             · have : x = _ := List.mem_singleton.mp hx'
               subst this
+              refine ⟨?_, allNodup_nodup _ hnd⟩
               intro c hc
               have hc' := List.all_eq_true.mp hall c hc
               show c ∈ (cols.map (fun c => (colOf c).1)).map (·.name)
@@ -76,14 +87,20 @@ theorem exec_pkin (rc : Bool) {db db' : DB} (s : Stmt) (hs : s.colSafe = true) (
       · cases he
       · have fin : ∀ cols' : List ColSpec, (∀ x ∈ tb.cols, x ∈ cols') → (colOf c).1 ∈ cols' →
             TableSpec.PkIn { tb with cols := cols', pk := if (colOf c).2 = true then [c.name] else tb.pk } := by
-          intro cols' hsup hnew x hx
-          show x ∈ cols'.map (·.name)
-          have hx : x ∈ (if (colOf c).2 = true then [c.name] else tb.pk) := hx
-          split at hx
-          · rw [List.mem_singleton.mp hx]
-            exact List.mem_map.mpr ⟨(colOf c).1, hnew, rfl⟩
-          · obtain ⟨y, hy, rfl⟩ := List.mem_map.mp (htb x hx)
-            exact List.mem_map_of_mem (hsup y hy)
+          intro cols' hsup hnew
+          refine ⟨?_, ?_⟩
+          · intro x hx
+            show x ∈ cols'.map (·.name)
+            have hx : x ∈ (if (colOf c).2 = true then [c.name] else tb.pk) := hx
+            split at hx
+            · rw [List.mem_singleton.mp hx]
+              exact List.mem_map.mpr ⟨(colOf c).1, hnew, rfl⟩
+            · obtain ⟨y, hy, rfl⟩ := List.mem_map.mp (htb.1 x hx)
+              exact List.mem_map_of_mem (hsup y hy)
+          · show (if (colOf c).2 = true then [c.name] else tb.pk).Nodup
+            split
+            · exact List.nodup_cons.mpr ⟨by simp, List.nodup_nil⟩
+            · exact htb.2
         cases pos with
         | none =>
           simp only at he
@@ -112,12 +129,12 @@ theorem exec_pkin (rc : Bool) {db db' : DB} (s : Stmt) (hs : s.colSafe = true) (
     · split at he
       · cases he
       · have := Option.some.inj he; subst this
-        refine pkin_replace h ?_
+        refine pkin_replace h ⟨?_, htb.2.filter _⟩
         intro x hx
         have hx : x ∈ tb.pk.filter (· != c) := hx
         obtain ⟨hx1, hx2⟩ := List.mem_filter.mp hx
         show x ∈ (tb.cols.filter (·.name != c)).map (·.name)
-        obtain ⟨y, hy, rfl⟩ := List.mem_map.mp (htb x hx1)
+        obtain ⟨y, hy, rfl⟩ := List.mem_map.mp (htb.1 x hx1)
         exact List.mem_map_of_mem (List.mem_filter.mpr ⟨hy, hx2⟩)
   | modifyColumn t c =>
     simp only [exec] at he
@@ -141,13 +158,18 @@ theorem exec_pkin (rc : Bool) {db db' : DB} (s : Stmt) (hs : s.colSafe = true) (
             have : y.name = c.name := by simpa using hn
             rw [this]; rfl
           · rfl
-        intro x hx
-        have hx : x ∈ (if (colOf c).2 = true then [c.name] else tb.pk) := hx
-        split at hx
-        · rw [List.mem_singleton.mp hx]
-          have : tb.hasCol c.name = true := by simpa using hcol
-          exact hnames _ ((ReaderMysql.hasCol_iff tb c.name).mp this)
-        · exact hnames _ (htb x hx)
+        refine ⟨?_, ?_⟩
+        · intro x hx
+          have hx : x ∈ (if (colOf c).2 = true then [c.name] else tb.pk) := hx
+          split at hx
+          · rw [List.mem_singleton.mp hx]
+            have : tb.hasCol c.name = true := by simpa using hcol
+            exact hnames _ ((ReaderMysql.hasCol_iff tb c.name).mp this)
+          · exact hnames _ (htb.1 x hx)
+        · show (if (colOf c).2 = true then [c.name] else tb.pk).Nodup
+          split
+          · exact List.nodup_cons.mpr ⟨by simp, List.nodup_nil⟩
+          · exact htb.2
   | renameColumn t o n => simp [Stmt.colSafe] at hs
   | addPrimaryKey t cols =>
     simp only [exec] at he
@@ -156,10 +178,10 @@ theorem exec_pkin (rc : Bool) {db db' : DB} (s : Stmt) (hs : s.colSafe = true) (
     · cases he
     · rename_i hchk
       have := Option.some.inj he; subst this
-      refine pkin_replace h ?_
+      simp only [Bool.or_eq_true, not_or, Bool.not_eq_true', Bool.not_eq_false, Bool.not_eq_true] at hchk
+      refine pkin_replace h ⟨?_, allNodup_nodup _ hchk.2⟩
       intro x hx
       have hx : x ∈ cols := hx
-      simp only [Bool.or_eq_true, not_or, Bool.not_eq_true', Bool.not_eq_false] at hchk
       have := List.all_eq_true.mp hchk.1.2 x hx
       exact (ReaderMysql.hasCol_iff tb x).mp this
   | dropPrimaryKey t =>
@@ -168,7 +190,7 @@ theorem exec_pkin (rc : Bool) {db db' : DB} (s : Stmt) (hs : s.colSafe = true) (
     split at he
     · cases he
     · have := Option.some.inj he; subst this
-      refine pkin_replace h ?_
+      refine pkin_replace h ⟨?_, List.nodup_nil⟩
       intro x hx
       cases hx
   | addFk t name col rt rc' =>
